@@ -70,8 +70,9 @@ class QueryGen:
         for _ in range(r.choice([0, 1, 1, 1, 2, 3])):
             frm.append(self.source(subdepth))
         if frm:
-            for _ in range(r.choice([0, 0, 1, 1, 2])):
-                kind = r.choice(JOINS)
+            # up to five joins in one chain, joins without a condition (CROSS JOIN) mixed among joins with one
+            for _ in range(r.choice([0, 0, 1, 1, 2, 2, 3, 4, 5])):
+                kind = "CROSS JOIN" if r.random() < 0.2 else r.choice(JOINS)
                 cond = None
                 if kind != "CROSS JOIN":
                     cond = ("on", self.expr(2, boolean=True)) if r.random() < 0.7 else ("using", self.name("c"))
